@@ -163,6 +163,7 @@ func Load(dir string, deep bool, overlay map[string][]byte) (*Program, error) {
 	p.deep = true
 	for _, pk := range p.Pkgs {
 		p.normalized += normalizeConstructions(pk)
+		p.normalized += unrollFunctionTables(pk)
 	}
 	resolveNames(p.Pkgs)
 	buildDevirt(p.Pkgs)
